@@ -36,6 +36,7 @@ type c06Case struct {
 	Cut     int        `json:"cut_at,omitempty"`             // one forced short read ending exactly at this stream offset
 	Std     string     `json:"std_type,omitempty"`           // a standard-library reader / writer type
 	Empty   int        `json:"empty_every,omitempty"`        // > 0: every Empty-th call of the reader returns (0, nil) (a polling source)
+	TVer    *string    `json:"target_version_at_first,omitempty"` // streams into one reused versioned target (c06StreamReusedVersioned)
 	Sizer   string     `json:"sizing_call_before,omitempty"` // histories on one message object (c06MutJudge): zoo_message names the history
 	Zoo     string     `json:"zoo_message,omitempty"`        // an entry of the message zoo (c06_zoo.go), read with uniform_chunk
 }
@@ -45,7 +46,7 @@ func init() {
 		ID:     "C06",
 		Word32: true,
 		Level:  "model_checking",
-		Rule: "Scheduled part (E4 on the instrumented pbcmpl and iohelper packages): every unordered pair of {Marshal, Unmarshal} × 7 frames as a 2-thread program - each thread with its own message, writer and reader -, every schedule with at most 2 (thorough 3) preemptions; each thread must meet the per-frame obligations exactly as when it runs alone. Sequential part: a MESSAGE ZOO (25 messages of 15 generated types given by their hand-written wire bytes: every wire type, negative varints, nested messages, a map entry, and UNKNOWN FIELDS at top level and inside a nested message; each through Marshal / Size and back through Unmarshal into a fresh and into a dirty reused target, proto.Equal + identical re-encoding + identical Size, with a small frame behind it, under whole / 1-byte / 7-byte chunkings); MESSAGES WITH THEIR OWN CODEC of several shapes (a struct of fixed-size fields encoding as varints, a type whose Size() counts items and whose Unmarshal MERGES, a type with a ProtoSize() method, empty encodings: Marshal count = Size = 32 + own encoding, read back into fresh and dirty reused targets); HISTORIES ON ONE MESSAGE OBJECT (7 messages with a nested message - repeated element, map value, oneof member, two levels down -: sized by pbcmpl.Marshal / pbcmpl.Size / proto.Size / nothing, then changed INSIDE so that the nested message's encoded length changes, then marshalled without a sizing call in between: the frame is the hand-written encoding of the message as it is then); POLLING readers (every 2nd / 3rd / 5th call returns (0, nil) between pieces of 1 / 7 / 16 / 4096 bytes: hundreds of empty reads per frame, never two in a row; frames on both sides of the 1 MiB switch); a payload-length sweep (EVERY length 0..1100, every threshold length up to 70000 and every length 2^20-16..2^20+2 - bodies on both sides of the 1 MiB switch to an incremental read - × 4 message kinds: per-frame obligations, and read-back with a small frame behind it); E3 stateless deviation-bounded DFS over a scripted io.Reader: (frames) every frame of the alphabet {generated protobuf message, its versioned wrapper, legacy Marshal/Unmarshal message, its versioned variant} × payload lengths {0,1,2,31,32,33,127,128,129,5000, 2^20+1 (+65535, 65536, 2^20, 2^21+5 thorough)} × versions (every length 0..16, an interior NUL, a leading NUL, trailing spaces, bytes >= 0x80 that are not valid UTF-8): Marshal's count = bytes written = Size = HeaderSize + encoding length, wire bytes = independently built header + encoding, ReadHeader = (version, 32, length) consuming 32 bytes; " +
+		Rule: "Scheduled part (E4 on the instrumented pbcmpl and iohelper packages): every unordered pair of {Marshal, Unmarshal} × 7 frames as a 2-thread program - each thread with its own message, writer and reader -, every schedule with at most 2 (thorough 3) preemptions; each thread must meet the per-frame obligations exactly as when it runs alone. Sequential part: a MESSAGE ZOO (25 messages of 15 generated types given by their hand-written wire bytes: every wire type, negative varints, nested messages, a map entry, and UNKNOWN FIELDS at top level and inside a nested message; each through Marshal / Size and back through Unmarshal into a fresh and into a dirty reused target, proto.Equal + identical re-encoding + identical Size, with a small frame behind it, under whole / 1-byte / 7-byte chunkings); STREAMS INTO ONE REUSED VERSIONED TARGET whose own GetVersion() is the version of the frame before (every ordered pair and triple of five semantic versions with different majors); MESSAGES WITH THEIR OWN CODEC of several shapes (a struct of fixed-size fields encoding as varints, a type whose Size() counts items and whose Unmarshal MERGES, a type with a ProtoSize() method, empty encodings: Marshal count = Size = 32 + own encoding, read back into fresh and dirty reused targets); HISTORIES ON ONE MESSAGE OBJECT (7 messages with a nested message - repeated element, map value, oneof member, two levels down -: sized by pbcmpl.Marshal / pbcmpl.Size / proto.Size / nothing, then changed INSIDE so that the nested message's encoded length changes, then marshalled without a sizing call in between: the frame is the hand-written encoding of the message as it is then); POLLING readers (every 2nd / 3rd / 5th call returns (0, nil) between pieces of 1 / 7 / 16 / 4096 bytes: hundreds of empty reads per frame, never two in a row; frames on both sides of the 1 MiB switch); a payload-length sweep (EVERY length 0..1100, every threshold length up to 70000 and every length 2^20-16..2^20+2 - bodies on both sides of the 1 MiB switch to an incremental read - × 4 message kinds: per-frame obligations, and read-back with a small frame behind it); E3 stateless deviation-bounded DFS over a scripted io.Reader: (frames) every frame of the alphabet {generated protobuf message, its versioned wrapper, legacy Marshal/Unmarshal message, its versioned variant} × payload lengths {0,1,2,31,32,33,127,128,129,5000, 2^20+1 (+65535, 65536, 2^20, 2^21+5 thorough)} × versions (every length 0..16, an interior NUL, a leading NUL, trailing spaces, bytes >= 0x80 that are not valid UTF-8): Marshal's count = bytes written = Size = HeaderSize + encoding length, wire bytes = independently built header + encoding, ReadHeader = (version, 32, length) consuming 32 bytes; " +
 			"(histories) every stream of 1..3 frames over a 6-frame sub-alphabet, read back by k+1 Unmarshal calls under every reader chunking with ≤B deviations from 'deliver as much as asked' (deviations: return only j bytes for any j, deliver the last bytes together with io.EOF, one (0,nil) read) plus every uniform chunk size 1..len; every stream also through 11 standard-library reader types and every frame marshalled into 4 standard-library writer types (code may special-case dynamic types); every stream also MARSHALLED frame after frame into one writer (the last message object twice) and read back into reused target messages; three streams in which a frame with a body above 1 MiB is followed by further frames, under whole/uniform chunkings and one forced short read around every frame boundary, body start and power of two; each call must return the next message, its version, n = frame length = bytes actually pulled from the reader, and the extra call (0, cause io.EOF). " +
 			"states = choice-tree nodes (= executions), transitions = reader answers given. Non-trivial: executions with at least one deviation or a multi-frame stream.",
 		Assumptions: []string{
@@ -408,6 +409,46 @@ func c06MarshalStd(f c06Frame, kind string) (got, want string) {
 		out = []byte(sb.String())
 	}
 	return fmt.Sprintf("n=%d err=%s written=%s", n, errName(err), digest(out)), want
+}
+
+// c06StreamReusedVersioned reads a stream of versioned frames into ONE reused target per kind whose own
+// GetVersion() is the version of the frame read before (the caller keeps it there), tver at first: what the
+// target says about itself must not matter to what is read.
+func c06StreamReusedVersioned(frames []c06Frame, tver string) (got, want string) {
+	defer func() {
+		if e := recover(); e != nil {
+			got += fmt.Sprint(" panic: ", e)
+		}
+	}()
+	var data []byte
+	for _, f := range frames {
+		data = append(data, c06Wire(f)...)
+	}
+	r := bytes.NewReader(data)
+	targets := map[string]proto.Message{}
+	for _, f := range frames {
+		t := targets[f.Kind]
+		if t == nil {
+			t = c06Empty(f.Kind)
+			targets[f.Kind] = t
+			switch x := t.(type) {
+			case *c06PBV:
+				x.ver = tver
+			case *c06LegacyV:
+				x.ver = tver
+			}
+		}
+		n, ver, err := pbcmpl.Unmarshal(r, t)
+		got += fmt.Sprintf("[n=%d ver=%q err=%s payload=%s]", n, ver, errName(err), digest(c06PayloadOf(t)))
+		want += fmt.Sprintf("[n=%d ver=%q err=nil payload=%s]", len(c06Wire(f)), c06Ver(f), digest(c06Payload(f.Payload)))
+		switch x := t.(type) {
+		case *c06PBV:
+			x.ver = ver
+		case *c06LegacyV:
+			x.ver = ver
+		}
+	}
+	return got, want
 }
 
 // c06MarshalSeq marshals the frames of a stream one after the other into ONE
@@ -820,6 +861,41 @@ func c06Run(c *mc.Ctx) {
 			c.Add("zoo_cases", 1)
 		})
 	}
+	// streams of versioned frames into ONE reused target whose own GetVersion() is a valid version left over
+	// from the frame before (or given at first): every ordered pair and triple of five semantic versions with
+	// different major numbers, both versioned kinds, three initial target versions
+	{
+		vs := []string{"1.9.0", "2.0.0", "0.3.1", "1.0.0", "10.0.0"}
+		type job struct {
+			fr   []c06Frame
+			tver string
+		}
+		var jobs []job
+		for _, kind := range []string{"pbv", "legacyv"} {
+			for l := 2; l <= 3; l++ {
+				gen.Product(len(vs), l, func(ix []int) {
+					var fr []c06Frame
+					for i, k := range ix {
+						fr = append(fr, c06Frame{Kind: kind, Payload: 3 + i, Version: gen.Bytes(vs[k])})
+					}
+					for _, tv := range []string{"", "1.0.0", "7.7.7"} {
+						jobs = append(jobs, job{fr, tv})
+					}
+				})
+			}
+		}
+		c.Expect(int64(len(jobs)))
+		c.Par(len(jobs), func(i int) {
+			j := jobs[i]
+			if g, w := c06StreamReusedVersioned(j.fr, j.tver); g != w {
+				tv := j.tver
+				c.Fail(16<<50|int64(i), "stream/reused-versioned-target", "stream/reused-versioned-target", c06Case{Frames: j.fr, TVer: &tv}, g, w)
+			}
+			c.Count(1, 1)
+			c.Add("states", 1)
+			c.Add("reused_versioned_target_streams", 1)
+		})
+	}
 	// messages that bring their own codec, of several shapes (c06_zoo.go)
 	{
 		own := c06OwnCodecList()
@@ -909,6 +985,12 @@ func c06Judge(kind string, cs c06Case) (got, want string) {
 	switch kind {
 	case "zoo":
 		return c06ZooJudge(cs.Zoo, cs.Uniform)
+	case "stream/reused-versioned-target":
+		tv := ""
+		if cs.TVer != nil {
+			tv = *cs.TVer
+		}
+		return c06StreamReusedVersioned(cs.Frames, tv)
 	case "own-codec":
 		return c06OwnCodecJudge(cs.Zoo, cs.Uniform)
 	case "reused-message":
